@@ -62,7 +62,9 @@ Record worker := mkW {
   w_cur : option job;    (* curr_jobs (at most one job is ever dispatched to the actor) *)
   w_q : list job;        (* message_queue *)
   w_drain : bool;        (* is_draining *)
-  w_inc : N              (* how many actors have been built for this slot *)
+  w_inc : N;             (* how many actors have been built for this slot *)
+  w_alive : bool         (* the slot's actor still accepts messages (false: it is stopping and the
+                            factory has not yet handled its supervision event) *)
 }.
 
 Record rstate := mkR {
@@ -194,18 +196,24 @@ Definition discard_oldest (k : qkind) (q : list job) : option (job * list job) :
 
 (* dispatch_job: the cast to the worker actor succeeds; the actor starts handling the job *)
 Definition dispatch_job (w : worker) (j : job) : worker * list ev :=
-  (mkW (w_id w) (Some j) (w_q w) (w_drain w) (w_inc w), [EStart (jid j) (w_id w) (w_inc w)]).
+  if w_alive w then
+    (mkW (w_id w) (Some j) (w_q w) (w_drain w) (w_inc w) true, [EStart (jid j) (w_id w) (w_inc w)])
+  else
+    (* the cast fails (SendErr): the job goes back to the front of the queue *)
+    (mkW (w_id w) (w_cur w) (j :: w_q w) (w_drain w) (w_inc w) false, []).
 
 Definition set_q (w : worker) (q : list job) : worker :=
-  mkW (w_id w) (w_cur w) q (w_drain w) (w_inc w).
+  mkW (w_id w) (w_cur w) q (w_drain w) (w_inc w) (w_alive w).
 Definition set_cur (w : worker) (c : option job) : worker :=
-  mkW (w_id w) c (w_q w) (w_drain w) (w_inc w).
+  mkW (w_id w) c (w_q w) (w_drain w) (w_inc w) (w_alive w).
 Definition set_drain (w : worker) (d : bool) : worker :=
-  mkW (w_id w) (w_cur w) (w_q w) d (w_inc w).
+  mkW (w_id w) (w_cur w) (w_q w) d (w_inc w) (w_alive w).
+Definition set_alive (w : worker) (a : bool) : worker :=
+  mkW (w_id w) (w_cur w) (w_q w) (w_drain w) (w_inc w) a.
 
 Definition shed_events (l : list job) : list ev := map (fun j => EDiscard (jid j) Loadshed) l.
 
-(* enqueue_job *)
+(* enqueue_job (with fix acf308c: no early return, the Oldest shedding runs after both branches) *)
 Definition enqueue_job (c : fcfg) (w : worker) (j : job) : worker * list ev :=
   let shed_new :=
     match wsettings c with
@@ -214,21 +222,20 @@ Definition enqueue_job (c : fcfg) (w : worker) (j : job) : worker * list ev :=
     end in
   if shed_new then (w, [EDiscard (jid j) Loadshed; EReject (jid j)])
   else
-    match w_cur w with
-    | None =>
-      match w_q w with
-      | older :: rest =>
-        let (w', e) := dispatch_job (set_q w (rest ++ [j])) older in (w', EAccept (jid j) :: e)
-      | [] => let (w', e) := dispatch_job w j in (w', EAccept (jid j) :: e)
-      end
-    | Some _ =>
-      let q' := w_q w ++ [j] in
-      match wsettings c with
-      | Some (l, Oldest) =>
-        let n := (length q' - N.to_nat l)%nat in
-        (set_q w (skipn n q'), EAccept (jid j) :: shed_events (firstn n q'))
-      | _ => (set_q w q', [EAccept (jid j)])
-      end
+    let (w1, e1) :=
+      match w_cur w with
+      | None =>
+        match w_q w with
+        | older :: rest => dispatch_job (set_q w (rest ++ [j])) older
+        | [] => dispatch_job w j
+        end
+      | Some _ => (set_q w (w_q w ++ [j]), [])
+      end in
+    match wsettings c with
+    | Some (l, Oldest) =>
+      let n := (length (w_q w1) - N.to_nat l)%nat in
+      (set_q w1 (skipn n (w_q w1)), EAccept (jid j) :: e1 ++ shed_events (firstn n (w_q w1)))
+    | _ => (w1, EAccept (jid j) :: e1)
     end.
 
 (* worker_complete for the key of the job in curr_jobs: next queued job is dispatched *)
@@ -466,7 +473,7 @@ Definition worker_died (c : fcfg) (s : fstate) (i : N) : fstate * list ev :=
       (set_pool (set_rs s (on_change c (f_rs s) i false)) (remove_w (f_pool s) i), lost)
     else
     let (s0, inc) := build s i in
-    let w0 := mkW (w_id w) None (w_q w) (w_drain w) inc in
+    let w0 := mkW (w_id w) None (w_q w) (w_drain w) inc true in
     let (w1, e) := match w_q w0 with
                    | j :: r => dispatch_job (set_q w0 r) j
                    | [] => (w0, [])
@@ -488,7 +495,7 @@ Fixpoint grow (c : fcfg) (s : fstate) (from : N) (count : nat) : fstate :=
         mark_available c s1 from
       | None =>
         let (s0, inc) := build s from in
-        let s1 := set_pool s0 (f_pool s0 ++ [mkW from None [] false inc]) in
+        let s1 := set_pool s0 (f_pool s0 ++ [mkW from None [] false inc true]) in
         set_rs s1 (on_change c (f_rs s1) from true)
       end in
     grow c s' (from + 1) k
@@ -556,7 +563,8 @@ Definition all_available (p : list worker) : bool := forallb w_available p.
 
 Definition stop_factory (s : fstate) : fstate * list ev :=
   (mkF [] (f_size s) [] (f_rs s) (f_bucket s) (f_drain s) true (f_now s) (f_builds s),
-   map (fun j => EDiscard (jid j) Shutdown) (f_q s) ++ [EHook HStopped; EStopped]).
+   map (fun j => EDiscard (jid j) Shutdown) (f_q s ++ flat_map w_q (f_pool s))
+   ++ [EHook HStopped; EStopped]).
 
 Definition after_message (s : fstate) : fstate * list ev :=
   match f_drain s with
@@ -586,7 +594,7 @@ Definition q_active (s : fstate) : N := len (filter w_working (f_pool s)).
 Fixpoint insert_sorted (x : N) (l : list N) : list N :=
   match l with [] => [x] | y :: r => if x <=? y then x :: l else y :: insert_sorted x r end.
 Definition sort_n (l : list N) : list N := fold_right insert_sorted [] l.
-Definition live (s : fstate) : list N := sort_n (map w_id (f_pool s)).
+Definition live (s : fstate) : list N := sort_n (map w_id (filter w_alive (f_pool s))).
 
 (* ---------- labels ---------- *)
 
@@ -600,7 +608,9 @@ Inductive fop :=
 | FDrain                (* DrainRequests *)
 | FAdv (dt : N)         (* the virtual clock advances *)
 | FSettle               (* quiescence barrier (costs settle_ns of virtual time) *)
-| FQuery.               (* GetQueueDepth, GetAvailableCapacity, GetNumActiveWorkers + live workers *)
+| FQuery                (* GetQueueDepth, GetAvailableCapacity, GetNumActiveWorkers + live workers *)
+| FStopW (w : N)        (* user code stops the idle actor of slot w; its post_stop is slow *)
+| FOpenStop (w : N).    (* that actor finishes stopping: the factory gets the supervision event *)
 
 (* a message handled by the running factory, followed by the is_drained check *)
 Definition with_after (r : fstate * list ev) : fstate * list ev :=
@@ -656,6 +666,19 @@ Definition step (c : fcfg) (s : fstate) (o : fop) : fstate * list ev :=
   | FDrain =>
     if f_stopped s then (s, [])
     else with_after (set_dstate s Draining, [EHook HDraining])
+  | FStopW i =>
+    if f_stopped s then (s, [])
+    else match find_w (f_pool s) i with
+         | Some w => if w_alive w && (match w_cur w with None => true | Some _ => false end)
+                     then (set_pool s (upd_w (f_pool s) (set_alive w false)), []) else (s, [])
+         | None => (s, [])
+         end
+  | FOpenStop i =>
+    if f_stopped s then (s, [])
+    else match find_w (f_pool s) i with
+         | Some w => if w_alive w then (s, []) else worker_died c s i
+         | None => (s, [])
+         end
   | FQuery =>
     if f_stopped s then (s, [EQuery None None None []])
     else
@@ -996,9 +1019,19 @@ Fixpoint rc_scan (jobs : list job) (n : N) (pre : list ev) (ws : list window) : 
 Definition ck_resize (c : fcfg) (ws : list window) : bool :=
   rc_scan (jobs_of (ops_of ws)) (c_n0 c) [] ws.
 
+(* a job that was accepted is never thrown away as Shutdown: after DrainRequests every previously
+   accepted job finishes (the scenarios never stop the factory in any other way) *)
+Definition ck_accepted_finish (ws : list window) : bool :=
+  let evs := evs_of ws in
+  forallb (fun e => match e with
+                    | EDiscard id Shutdown => negb (existsb (is_accept id) evs)
+                    | _ => true
+                    end) evs.
+
 Definition check_C15_factory_clauses (c : fcfg) (ws : list window) : list bool :=
   [ck_discard_once ws; ck_queue_bound c ws; ck_shed_identity c ws; ck_reject_reported c ws;
-   ck_rate_window c ws; ck_drain_refuses ws; ck_drain_stops ws; ck_hooks ws; ck_resize c ws].
+   ck_rate_window c ws; ck_drain_refuses ws; ck_drain_stops ws; ck_hooks ws; ck_resize c ws;
+   ck_accepted_finish ws].
 
 Definition check_C15_factory (c : fcfg) (ws : list window) : bool :=
   forallb (fun b => b) (check_C15_factory_clauses c ws).
